@@ -180,7 +180,7 @@ Section LowP.
     table_rowid pg op npages root rowid =
     match lookup_pl rowid l with
     | None => Ok None
-    | Some (_, pl) => do rec <- load pl; Ok (Some rec)
+    | Some (_, pl) => do rec <- load pl; Ok (nonempty rec)
     end.
   Proof.
     intros Hop Hfl Hs Hsep. unfold table_rowid. rewrite Hop.
